@@ -13,6 +13,7 @@ import (
 	"net/http"
 	"net/http/httptrace"
 	"net/textproto"
+	"os"
 	"runtime/debug"
 	"strconv"
 	"strings"
@@ -468,7 +469,7 @@ type c18Outcome struct {
 // executed under the harness accept loop: if the server side panics there (attributed to its
 // site), that verdict is returned and the process-killing execution is not performed.
 func c18Run(t *testing.T, c c18Case) c18Outcome {
-	if c.Real {
+	if c.Real && os.Getenv("VERIF_C18_NOPRERUN") == "" {
 		pre := c
 		pre.Real = false
 		o := c18RunOne(t, pre)
